@@ -39,6 +39,38 @@ type simLedgerStats struct {
 	qiTxs, spendSameBlockOutput, mints, trims, conflictsSeen int
 }
 
+// firstSeen remembers, per case, the attributes (denomination, owner, lock) under which every
+// outpoint was first observed - in the UTXO set or in a block's spent / trimmed record. They are
+// fixed when the output is created: an output that comes back from an undo record, or a record
+// that describes a consumed output, with other attributes is a different (e.g. unlocked) coin.
+var firstSeen map[outp][3]string
+
+func sameAsFirstSeen(op outp, den uint8, owner []byte, lock *big.Int, where string) (string, string) {
+	l := "0"
+	if lock != nil {
+		l = lock.String()
+	}
+	cur := [3]string{fmt.Sprint(den), fmt.Sprintf("%x", owner), l}
+	if firstSeen == nil {
+		firstSeen = map[outp][3]string{}
+	}
+	if prev, ok := firstSeen[op]; ok {
+		if prev != cur {
+			return "outpoint-attributes-changed", fmt.Sprintf("output %x:%d was first seen as (denomination %s, owner %s, lock %s); %s describes it as (denomination %s, owner %s, lock %s)", op.h[:6], op.i, prev[0], prev[1], prev[2], where, cur[0], cur[1], cur[2])
+		}
+		return "", ""
+	}
+	firstSeen[op] = cur
+	return "", ""
+}
+
+func lockU64(l *big.Int) uint64 {
+	if l == nil {
+		return 0
+	}
+	return l.Uint64()
+}
+
 func rebuildLedger(n *sim.Net) (fp, msg string, st simLedgerStats) {
 	zone := n.Nodes[sim.Zone]
 	hc := zone.Core.Slice().HeaderChain()
@@ -143,7 +175,7 @@ func rebuildLedger(n *sim.Net) (fp, msg string, st simLedgerStats) {
 			st.mints++
 			op := outp{h, idx}
 			if u := rawdb.GetUTXO(zone.DB, h, idx); u != nil {
-				live[op] = rec{u.Denomination, u.Address, u.Lock.Uint64()}
+				live[op] = rec{u.Denomination, u.Address, lockU64(u.Lock)}
 			} else {
 				// already gone from the database: it was spent or trimmed by a later block; find its record there
 				found := false
@@ -153,7 +185,7 @@ func rebuildLedger(n *sim.Net) (fp, msg string, st simLedgerStats) {
 					tr, _ := rawdb.ReadTrimmedUTXOs(zone.DB, later.Hash())
 					for _, s := range append(sp, tr...) {
 						if s.TxHash == h && s.Index == idx {
-							live[op] = rec{s.Denomination, s.Address, s.Lock.Uint64()}
+							live[op] = rec{s.Denomination, s.Address, lockU64(s.Lock)}
 							found = true
 							break
 						}
@@ -185,7 +217,20 @@ func rebuildLedger(n *sim.Net) (fp, msg string, st simLedgerStats) {
 		if u.Entry == nil {
 			return "undecodable-utxo", fmt.Sprintf("%x:%d", u.TxHash, u.Index), st
 		}
-		db[outp{u.TxHash, u.Index}] = rec{u.Entry.Denomination, u.Entry.Address, u.Entry.Lock.Uint64()}
+		db[outp{u.TxHash, u.Index}] = rec{u.Entry.Denomination, u.Entry.Address, lockU64(u.Entry.Lock)}
+		if fp, msg := sameAsFirstSeen(outp{u.TxHash, u.Index}, u.Entry.Denomination, u.Entry.Address, u.Entry.Lock, "the UTXO set"); fp != "" {
+			return fp, msg, st
+		}
+	}
+	// the undo records of the canonical blocks describe the very outputs they consumed
+	for _, b := range rev {
+		sp, _ := rawdb.ReadSpentUTXOs(zone.DB, b.Hash())
+		tr, _ := rawdb.ReadTrimmedUTXOs(zone.DB, b.Hash())
+		for _, s := range append(sp, tr...) {
+			if fp, msg := sameAsFirstSeen(outp{s.TxHash, s.Index}, s.Denomination, s.Address, s.Lock, fmt.Sprintf("the spent/trimmed record of block #%d", b.NumberU64(sim.Zone))); fp != "" {
+				return fp, msg, st
+			}
+		}
 	}
 	for op, r := range live {
 		d, ok := db[op]
@@ -284,6 +329,7 @@ func TestC01_WorkerBlocks(t *testing.T) {
 			}
 		}
 		var agg simLedgerStats
+		firstSeen = map[outp][3]string{}
 		steps := rapid.IntRange(6, 20).Draw(t, "steps")
 		for i := 0; i < steps; i++ {
 			if err := a.Adopt(); err != nil {
